@@ -254,6 +254,7 @@ def truthy(st, sv):
 
 def alloc(st, kind, clsq=None):
     a = st.nxt
+    st.notes['fresh'] = st.notes.get('fresh', frozenset()) | {a.get_id()}
     st.nxt = st.nxt + 1
     # addresses are concrete offsets of next0 (or of the counter after a call): simplify for readability
     st.nxt = z3.simplify(st.nxt)
@@ -429,7 +430,7 @@ def merge_states(items):
     # statically known dict keys / list elements differ between the branches: keep the paths apart
     def _static(s):
         return sorted((repr(k), repr([getattr(x, 'term', x) for x in v]) if isinstance(v, list) else repr(v))
-                      for k, v in s.notes.items() if k != 'calls')
+                      for k, v in s.notes.items() if k not in ('calls', 'fresh'))
     if any(_static(s) != _static(states[0]) for s in states[1:]):
         return items
 
@@ -509,10 +510,13 @@ def merge_states(items):
     for g, l in zip(guards, lists):
         for rec in l[cp:]:
             merged_calls += (rec + (('guard', g),),)
+    fresh_ids = frozenset()
     for s in states:
+        fresh_ids |= s.notes.get('fresh', frozenset())
         for key, v in s.notes.items():
-            if key != 'calls':
+            if key not in ('calls', 'fresh'):
                 notes[key] = v
+    notes['fresh'] = fresh_ids
     notes['calls'] = merged_calls
     m.notes = notes
     m.trace = list(states[0].trace[:0]) + ['merge(%d)' % len(states)]
@@ -522,3 +526,17 @@ def merge_states(items):
 def _mergeable(t):
     return isinstance(t, (Ty.TAny, Ty.TNone, Ty.TBool, Ty.TInt, Ty.TStr, Ty.TBytes)) or \
         (isinstance(t, Ty.TOpt) and _mergeable(t.t))
+
+
+def only_fresh_stores(arr, base, fresh_ids, depth=0):
+    """arr is base with stores (possibly under ite) at addresses allocated during this run only"""
+    if arr.eq(base):
+        return True
+    if depth > 400 or not z3.is_app(arr):
+        return False
+    k = arr.decl().kind()
+    if k == z3.Z3_OP_STORE:
+        return arr.arg(1).get_id() in fresh_ids and only_fresh_stores(arr.arg(0), base, fresh_ids, depth + 1)
+    if k == z3.Z3_OP_ITE:
+        return only_fresh_stores(arr.arg(1), base, fresh_ids, depth + 1) and only_fresh_stores(arr.arg(2), base, fresh_ids, depth + 1)
+    return False
